@@ -105,6 +105,8 @@ def sources(tier, seed, ctx):
     for depth in ([1500] if tier == 'quick' else [1500, 4000]):
         srcs.append({'k': 'deep', 'depth': depth})
         srcs.append({'k': 'deep', 'depth': depth, 'rev': True})
+        srcs.append({'k': 'deep', 'depth': depth, 'blocks': True})
+        srcs.append({'k': 'deep', 'depth': 600, 'blocks': True, 'rev': True})
     ctx['gen_note'] = '; '.join(note)
     return srcs
 
@@ -176,7 +178,16 @@ def record(src):
     if src['k'] == 'deep':
         from .. import deep
         # helper gates are allowed: more gates than before, all of bench types
-        return deep.transform_case(PROP, 'into_bench', src, _bench_copy, types=deep.BENCHY, not_larger=False, allowed=sorted(set(gen.BENCH_TYPES) | {'INPUT'}))
+        def blocks(c, order):
+            # nested and overlapping blocks over hundreds of gates (a gate held by several blocks gets its helper into each)
+            if src.get('blocks'):
+                g = order[2:]
+                c.make_block('outer', g[50:400], [g[399]])
+                c.make_block('inner', g[120:260], [g[259]])
+                c.make_block('overlap', g[200:500], [g[499]])
+                c.make_block('tiny', g[130:133], [])
+        return deep.transform_case(PROP, 'into_bench', src, _bench_copy, types=deep.BENCHY, not_larger=False, allowed=sorted(set(gen.BENCH_TYPES) | {'INPUT'}),
+                                   prepare=blocks if src.get('blocks') else None)
     if src['k'] == 'graphviz':
         from .. import hist
 
